@@ -1,0 +1,542 @@
+//go:build verif
+
+// Contracts for govc (contract-based deductive verification); comments only.
+package resource_info
+
+// GPU share contributed by MIG instances of a Resource: a fold over the scalar
+// resources that parses MIG profile names (ExtractGpuAndMemoryFromMigResourceName).
+// Kept abstract: a non-negative function of the object.
+//@ declare migGpus(r *Resource) real
+
+//@ func (*Resource).GetTotalGPURequest
+//@   props C07 C08
+//@   trusted
+//@   note assumed contract: total = whole GPUs + MIG share; the MIG fold (string parsing of profile names) is not verified
+//@   requires r != nil
+//@   pure
+//@   ensures result == r.gpus + migGpus(r)
+//@ end
+
+// Total GPU quota of a request (whole + fractional GPUs, DRA claim counts, MIG share): two map folds
+// (one parsing MIG profile names). Kept abstract; name `gpusQuota` is used by other packages (C08).
+//@ declare gpusQuota(g *GpuResourceRequirement) real
+
+//@ func (*GpuResourceRequirement).GetGpusQuota
+//@   props C08 C14
+//@   trusted
+//@   note assumed: quota = MIG share + DRA counts + extended-resource GPUs; the two map folds are not verified
+//@   requires g != nil
+//@   pure
+//@   ensures result == gpusQuota(g)
+//@ end
+
+// ---- BaseResource -----------------------------------------------------------
+// C01: a request "fits" an amount iff cpu and memory are within it and every scalar resource the
+// request names is present in the amount with at least the requested quantity.
+//@ define fitsScalars(a map[v1.ResourceName]int64, b map[v1.ResourceName]int64) bool = forall k in a :: k in b && a[k] <= b[k]
+//@ define fitsBase(r *BaseResource, rr *BaseResource) bool = r.milliCpu <= rr.milliCpu && r.memory <= rr.memory && fitsScalars(r.scalarResources, rr.scalarResources)
+
+//@ func (*BaseResource).LessEqual
+//@   props C01 C14
+//@   requires r != nil && rr != nil
+//@   pure
+//@   loop 1
+//@     invariant forall k in visited :: k in rr.scalarResources && r.scalarResources[k] <= rr.scalarResources[k]
+//@   ensures result == fitsBase(r, rr)
+//@ end
+
+// C14: Add/Sub are exact, component-wise; a scalar whose sum becomes 0 is dropped from the map,
+// every other key named by `other` is present afterwards, keys not named by `other` are untouched.
+//@ func (*BaseResource).Add
+//@   props C01 C14
+//@   requires r != nil && other != nil && r.scalarResources != nil && r.scalarResources != other.scalarResources
+//@   modifies r.milliCpu, r.memory, r.scalarResources[*]
+//@   loop 1
+//@     invariant forall k in visited :: k in other.scalarResources
+//@     invariant forall k in visited :: r.scalarResources[k] == old(r.scalarResources[k]) + other.scalarResources[k] && (k in r.scalarResources <==> r.scalarResources[k] != 0)
+//@     invariant forall k v1.ResourceName :: !(k in visited) ==> r.scalarResources[k] == old(r.scalarResources[k]) && (k in r.scalarResources <==> old(k in r.scalarResources))
+//@   ensures r.milliCpu == old(r.milliCpu) + other.milliCpu
+//@   ensures r.memory == old(r.memory) + other.memory
+//@   ensures forall k v1.ResourceName :: r.scalarResources[k] == old(r.scalarResources[k]) + other.scalarResources[k]
+//@   ensures forall k v1.ResourceName :: k in r.scalarResources <==> ite(k in other.scalarResources, r.scalarResources[k] != 0, old(k in r.scalarResources))
+//@ end
+
+//@ func (*BaseResource).Sub
+//@   props C01 C14
+//@   requires r != nil && other != nil && r.scalarResources != nil && r.scalarResources != other.scalarResources
+//@   modifies r.milliCpu, r.memory, r.scalarResources[*]
+//@   loop 1
+//@     invariant forall k in visited :: k in other.scalarResources
+//@     invariant forall k in visited :: r.scalarResources[k] == old(r.scalarResources[k]) - other.scalarResources[k] && (k in r.scalarResources <==> r.scalarResources[k] != 0)
+//@     invariant forall k v1.ResourceName :: !(k in visited) ==> r.scalarResources[k] == old(r.scalarResources[k]) && (k in r.scalarResources <==> old(k in r.scalarResources))
+//@   ensures r.milliCpu == old(r.milliCpu) - other.milliCpu
+//@   ensures r.memory == old(r.memory) - other.memory
+//@   ensures forall k v1.ResourceName :: r.scalarResources[k] == old(r.scalarResources[k]) - other.scalarResources[k]
+//@   ensures forall k v1.ResourceName :: k in r.scalarResources <==> ite(k in other.scalarResources, r.scalarResources[k] != 0, old(k in r.scalarResources))
+//@ end
+
+//@ func (*BaseResource).Get
+//@   props C01 C14
+//@   requires r != nil
+//@   pure
+//@   ensures result == ite(rn == "cpu", r.milliCpu, ite(rn == "memory", r.memory, real(r.scalarResources[rn])))
+//@ end
+
+//@ func (*BaseResource).Clone
+//@   props C01 C14
+//@   requires r != nil
+//@   fresh
+//@   ensures result.milliCpu == r.milliCpu && result.memory == r.memory
+//@   ensures forall k v1.ResourceName :: result.scalarResources[k] == r.scalarResources[k] && (k in result.scalarResources <==> k in r.scalarResources)
+//@   ensures r.scalarResources != nil ==> fresh(result.scalarResources)
+//@ end
+
+// ---- Resource -----------------------------------------------------------------
+//@ define fitsRes(r *Resource, rr *Resource) bool = r.gpus <= rr.gpus && fitsBase(r.BaseResource, rr.BaseResource)
+
+//@ func EmptyResource
+//@   props C01 C14
+//@   fresh
+//@   ensures result.milliCpu == 0.0 && result.memory == 0.0 && result.gpus == 0.0
+//@   ensures fresh(result.scalarResources) && (forall k v1.ResourceName :: !(k in result.scalarResources))
+//@ end
+
+//@ func (*Resource).LessEqual
+//@   props C01 C14
+//@   requires r != nil && rr != nil
+//@   pure
+//@   ensures result == fitsRes(r, rr)
+//@ end
+
+//@ func (*Resource).Add
+//@   props C01 C14
+//@   requires r != nil && other != nil && r.scalarResources != nil && r.scalarResources != other.scalarResources
+//@   modifies r.milliCpu, r.memory, r.gpus, r.scalarResources[*]
+//@   ensures r.milliCpu == old(r.milliCpu) + other.milliCpu
+//@   ensures r.memory == old(r.memory) + other.memory
+//@   ensures r.gpus == old(r.gpus) + old(other.gpus)
+//@   ensures forall k v1.ResourceName :: r.scalarResources[k] == old(r.scalarResources[k]) + other.scalarResources[k]
+//@   ensures forall k v1.ResourceName :: k in r.scalarResources <==> ite(k in other.scalarResources, r.scalarResources[k] != 0, old(k in r.scalarResources))
+//@ end
+
+//@ func (*Resource).Sub
+//@   props C01 C14
+//@   requires r != nil && other != nil && r.scalarResources != nil && r.scalarResources != other.scalarResources
+//@   modifies r.milliCpu, r.memory, r.gpus, r.scalarResources[*]
+//@   ensures r.milliCpu == old(r.milliCpu) - other.milliCpu
+//@   ensures r.memory == old(r.memory) - other.memory
+//@   ensures r.gpus == old(r.gpus) - old(other.gpus)
+//@   ensures forall k v1.ResourceName :: r.scalarResources[k] == old(r.scalarResources[k]) - other.scalarResources[k]
+//@   ensures forall k v1.ResourceName :: k in r.scalarResources <==> ite(k in other.scalarResources, r.scalarResources[k] != 0, old(k in r.scalarResources))
+//@ end
+
+//@ func (*Resource).Get
+//@   props C01 C14
+//@   requires r != nil
+//@   pure
+//@   ensures result == ite(rn == "nvidia.com/gpu" || rn == "amd.com/gpu", r.gpus, ite(rn == "cpu", r.milliCpu, ite(rn == "memory", r.memory, real(r.scalarResources[rn]))))
+//@ end
+
+//@ func (*Resource).Clone
+//@   props C01 C14
+//@   requires r != nil
+//@   fresh
+//@   ensures result.milliCpu == r.milliCpu && result.memory == r.memory && result.gpus == r.gpus
+//@   ensures forall k v1.ResourceName :: result.scalarResources[k] == r.scalarResources[k] && (k in result.scalarResources <==> k in r.scalarResources)
+//@   ensures r.scalarResources != nil ==> fresh(result.scalarResources)
+//@ end
+
+//@ func (*Resource).GPUs
+//@   props C01 C02 C14
+//@   requires r != nil
+//@   inline
+//@ end
+//@ func (*Resource).SetGPUs
+//@   props C01 C02 C14
+//@   requires r != nil
+//@   inline
+//@ end
+//@ func (*Resource).AddGPUs
+//@   props C01 C02 C14
+//@   requires r != nil
+//@   inline
+//@ end
+//@ func (*Resource).SubGPUs
+//@   props C01 C02 C14
+//@   requires r != nil
+//@   inline
+//@ end
+
+// ---- GpuResourceRequirement --------------------------------------------------------
+// Extended-resource GPUs of a request: portion (fixed point, 2 decimals, math.Round = half away from zero) times device count.
+//@ define roundHalfAway(x real) int = ite(x >= 0.0, floor(x + 0.5), 0 - floor(0.5 - x))
+//@ define extGpus(portion real, count int) real = real(roundHalfAway(portion * 100.0) * count) / 100.0
+//@ define reqGpus(g *GpuResourceRequirement) real = extGpus(g.portion, g.count)
+//@ define isFractional(g *GpuResourceRequirement) bool = g.gpuMemory > 0 || (g.count > 0 && g.portion < 1.0)
+
+//@ func getExtendedResourceGpus
+//@   props C01 C02 C14
+//@   pure
+//@   ensures result == extGpus(portion, count)
+//@ end
+
+//@ func (*GpuResourceRequirement).GPUs
+//@   props C01 C02 C14
+//@   requires g != nil
+//@   pure
+//@   ensures result == reqGpus(g)
+//@ end
+
+//@ func (*GpuResourceRequirement).GetNumOfGpuDevices
+//@   props C01 C02 C14
+//@   requires g != nil
+//@   inline
+//@ end
+//@ func (*GpuResourceRequirement).GpuMemory
+//@   props C01 C02 C14
+//@   requires g != nil
+//@   inline
+//@ end
+//@ func (*GpuResourceRequirement).GpuFractionalPortion
+//@   props C01 C02 C14
+//@   requires g != nil
+//@   inline
+//@ end
+//@ func (*GpuResourceRequirement).MigResources
+//@   props C01 C02 C14
+//@   requires g != nil
+//@   inline
+//@ end
+//@ func (*GpuResourceRequirement).DraGpuCounts
+//@   props C01 C14
+//@   requires g != nil
+//@   inline
+//@ end
+
+//@ func (*GpuResourceRequirement).IsFractionalRequest
+//@   props C01 C02 C14
+//@   requires g != nil
+//@   pure
+//@   ensures result == isFractional(g)
+//@ end
+
+// Number of GPUs requested through DRA claims: a fold (sum) over the map draGpuCounts. No sum theory in the spec
+// language: the sum is a ghost attribute of the MAP object (havocked by unknown code like a field; a new map has an
+// unconstrained sum; the only in-place writer of such a map in the repo is GpuResourceRequirement.SetMaxResource,
+// which has no contract = havoc).
+//@ ghost draSum(m map[string]int64) int
+
+//@ func (*GpuResourceRequirement).GetDraGpusCount
+//@   props C01 C14
+//@   trusted
+//@   note assumed: the sum over the map draGpuCounts is the ghost attribute draSum of that map (no sum theory in the spec language); exact 0 for an empty map is stated
+//@   requires g != nil
+//@   pure
+//@   ensures result == draSum(g.draGpuCounts)
+//@   ensures (forall k string :: !(k in g.draGpuCounts)) ==> result == 0
+//@ end
+
+//@ func (*GpuResourceRequirement).SetDraGpus
+//@   props C01 C14 C19 C10
+//@   requires g != nil
+//@   modifies g.draGpuCounts
+//@   loop 1
+//@     invariant fresh(g.draGpuCounts) && g.draGpuCounts != draGpus
+//@     invariant forall k in visited :: k in draGpus && g.draGpuCounts[k] == draGpus[k] && k in g.draGpuCounts
+//@     invariant forall k string :: !(k in visited) ==> !(k in g.draGpuCounts)
+//@   ensures fresh(g.draGpuCounts)
+//@   ensures forall k string :: g.draGpuCounts[k] == draGpus[k] && (k in g.draGpuCounts <==> k in draGpus)
+//@ end
+
+// ---- ResourceRequirements --------------------------------------------------------
+// C01: a task request fits an amount of node resources iff its cpu/memory/scalars fit, its whole+fractional
+// GPUs plus DRA GPUs are within the GPUs of the amount, and every MIG profile it names is present with enough instances.
+//@ define fitsReq(r *ResourceRequirements, rr *Resource) bool = fitsBase(r.BaseResource, rr.BaseResource) && reqGpus(r.GpuResourceRequirement) + real(r.GetDraGpusCount()) <= rr.gpus && fitsScalars(r.migResources, rr.scalarResources)
+
+//@ func (*ResourceRequirements).LessEqualResource
+//@   props C01 C14
+//@   requires r != nil && rr != nil
+//@   pure
+//@   loop 1
+//@     invariant forall k in visited :: k in rr.scalarResources && r.migResources[k] <= rr.scalarResources[k]
+//@   ensures result == fitsReq(r, rr)
+//@ end
+
+// no GPUs requested through DRA claims (the DRA fold has no closed form in the spec language: exact GPU effects are stated for such requests)
+//@ define noDra(req *ResourceRequirements) bool = forall k string :: !(k in req.draGpuCounts)
+
+// C14: charging a request to a Resource is exact and component-wise: cpu, memory, every scalar, GPUs (= extended GPUs of
+// the request + DRA GPUs) and every MIG profile (stored among the scalars of the Resource).
+//@ func (*Resource).AddResourceRequirements
+//@   props C01 C14
+//@   requires r != nil && r.scalarResources != nil
+//@   requires req != nil ==> r.scalarResources != req.scalarResources && r.scalarResources != req.migResources
+//@   modifies r.milliCpu, r.memory, r.gpus, r.scalarResources[*]
+//@   loop 1
+//@     invariant noDra(req) ==> r.gpus == old(r.gpus) + reqGpus(req.GpuResourceRequirement)
+//@   loop 2
+//@     invariant forall k in visited :: k in req.migResources
+//@     invariant forall m map[v1.ResourceName]int64, k v1.ResourceName :: m != r.scalarResources ==> m[k] == old(m[k]) && (k in m <==> old(k in m))
+//@     invariant forall m map[v1.ResourceName]int64 :: m != r.scalarResources ==> dom(m) == old(dom(m))
+//@     invariant forall k in visited :: r.scalarResources[k] == old(r.scalarResources[k]) + req.scalarResources[k] + req.migResources[k] && k in r.scalarResources
+//@     invariant forall k v1.ResourceName :: !(k in visited) ==> r.scalarResources[k] == old(r.scalarResources[k]) + req.scalarResources[k] && (k in r.scalarResources <==> ite(k in req.scalarResources, r.scalarResources[k] != 0, old(k in r.scalarResources)))
+//@   ensures req == nil ==> r.milliCpu == old(r.milliCpu) && r.memory == old(r.memory) && r.gpus == old(r.gpus)
+//@   ensures req == nil ==> forall k v1.ResourceName :: r.scalarResources[k] == old(r.scalarResources[k]) && (k in r.scalarResources <==> old(k in r.scalarResources))
+//@   ensures req != nil ==> r.milliCpu == old(r.milliCpu) + req.milliCpu
+//@   ensures req != nil ==> r.memory == old(r.memory) + req.memory
+//@   ensures req != nil && noDra(req) ==> r.gpus == old(r.gpus) + reqGpus(req.GpuResourceRequirement)
+//@   ensures req != nil ==> forall k v1.ResourceName :: r.scalarResources[k] == old(r.scalarResources[k]) + req.scalarResources[k] + req.migResources[k]
+//@   ensures req != nil ==> forall k v1.ResourceName :: k in r.scalarResources <==> (k in req.migResources || ite(k in req.scalarResources, old(r.scalarResources[k]) + req.scalarResources[k] != 0, old(k in r.scalarResources)))
+//@ end
+
+//@ func (*Resource).SubResourceRequirements
+//@   props C01 C14
+//@   requires r != nil && r.scalarResources != nil && req != nil
+//@   requires r.scalarResources != req.scalarResources && r.scalarResources != req.migResources
+//@   modifies r.milliCpu, r.memory, r.gpus, r.scalarResources[*]
+//@   loop 1
+//@     invariant noDra(req) ==> r.gpus == old(r.gpus) - reqGpus(req.GpuResourceRequirement)
+//@   loop 2
+//@     invariant forall k in visited :: k in req.migResources
+//@     invariant forall m map[v1.ResourceName]int64, k v1.ResourceName :: m != r.scalarResources ==> m[k] == old(m[k]) && (k in m <==> old(k in m))
+//@     invariant forall m map[v1.ResourceName]int64 :: m != r.scalarResources ==> dom(m) == old(dom(m))
+//@     invariant forall k in visited :: r.scalarResources[k] == old(r.scalarResources[k]) - req.scalarResources[k] - req.migResources[k] && k in r.scalarResources
+//@     invariant forall k v1.ResourceName :: !(k in visited) ==> r.scalarResources[k] == old(r.scalarResources[k]) - req.scalarResources[k] && (k in r.scalarResources <==> ite(k in req.scalarResources, r.scalarResources[k] != 0, old(k in r.scalarResources)))
+//@   ensures r.milliCpu == old(r.milliCpu) - req.milliCpu
+//@   ensures r.memory == old(r.memory) - req.memory
+//@   ensures noDra(req) ==> r.gpus == old(r.gpus) - reqGpus(req.GpuResourceRequirement)
+//@   ensures forall k v1.ResourceName :: r.scalarResources[k] == old(r.scalarResources[k]) - req.scalarResources[k] - req.migResources[k]
+//@   ensures forall k v1.ResourceName :: k in r.scalarResources <==> (k in req.migResources || ite(k in req.scalarResources, old(r.scalarResources[k]) - req.scalarResources[k] != 0, old(k in r.scalarResources)))
+//@ end
+
+//@ func (*GpuResourceRequirement).Clone
+//@   props C01 C14
+//@   requires g != nil
+//@   fresh
+//@   ensures result.count == g.count && result.portion == g.portion && result.gpuMemory == g.gpuMemory
+//@   ensures forall k v1.ResourceName :: result.migResources[k] == g.migResources[k] && (k in result.migResources <==> k in g.migResources)
+//@   ensures forall k string :: result.draGpuCounts[k] == g.draGpuCounts[k] && (k in result.draGpuCounts <==> k in g.draGpuCounts)
+//@   ensures (g.migResources != nil ==> fresh(result.migResources)) && (g.draGpuCounts != nil ==> fresh(result.draGpuCounts))
+//@ end
+
+//@ func (*ResourceRequirements).Clone
+//@   props C01 C14
+//@   requires r != nil
+//@   fresh
+//@   ensures result.milliCpu == r.milliCpu && result.memory == r.memory
+//@   ensures forall k v1.ResourceName :: result.scalarResources[k] == r.scalarResources[k] && (k in result.scalarResources <==> k in r.scalarResources)
+//@   ensures r.scalarResources != nil ==> fresh(result.scalarResources)
+//@   ensures result.count == r.count && result.portion == r.portion && result.gpuMemory == r.gpuMemory
+//@   ensures forall k v1.ResourceName :: result.migResources[k] == r.migResources[k] && (k in result.migResources <==> k in r.migResources)
+//@   ensures forall k string :: result.draGpuCounts[k] == r.draGpuCounts[k] && (k in result.draGpuCounts <==> k in r.draGpuCounts)
+//@   ensures (r.migResources != nil ==> fresh(result.migResources)) && (r.draGpuCounts != nil ==> fresh(result.draGpuCounts))
+//@ end
+
+// ---- ResourceVector ------------------------------------------------------------------
+// C14: vector arithmetic is exact and index-wise; a shorter receiver is zero-extended first; reads outside the vector are 0.
+//@ define vget(v ResourceVector, i int) real = ite(0 <= i && i < len(v), v[i], 0.0)
+
+//@ func (ResourceVector).Get
+//@   props C01 C14
+//@   pure
+//@   ensures result == vget(v, index)
+//@ end
+
+//@ func (ResourceVector).Set
+//@   props C01 C14
+//@   inline
+//@ end
+
+// the two slices do not share a backing array (a slice compared with a reference compares its array)
+// the backing array of a slice result is newly allocated (`fresh` is not asserted for slice-typed results at call sites)
+//@ define freshArray(a ResourceVector) bool = forall x ref :: a == x ==> fresh(x)
+//@ define distinctArrays(a ResourceVector, b ResourceVector) bool = forall x ref :: a == x ==> b != x
+
+//@ func (*ResourceVector).Add
+//@   props C01 C14
+//@   requires v != nil && (len(other) == 0 || distinctArrays(*v, other))
+//@   requires len(*v) >= len(other)   // the zero-extension branch uses copy(), which the engine over-approximates (see report)
+//@   modifies (*v)[*]
+//@   loop 1
+//@     invariant 0 - 1 <= rangeindex && rangeindex < len(other) && len(*v) == old(len(*v)) && *v == old(*v)
+//@     invariant forall i int :: rangeindex < i && i < len(*v) ==> (*v)[i] == old((*v)[i])
+//@     invariant forall i int :: 0 <= i && i <= rangeindex ==> (*v)[i] == old((*v)[i]) + other[i]
+//@     invariant forall i int :: 0 <= i && i < len(other) ==> other[i] == old(other[i])
+//@   ensures forall i int :: 0 <= i && i < len(*v) ==> (*v)[i] == old((*v)[i]) + vget(other, i)
+//@   ensures forall i int :: 0 <= i && i < len(other) ==> other[i] == old(other[i])
+//@ end
+
+//@ func (*ResourceVector).Sub
+//@   props C01 C14
+//@   requires v != nil && (len(other) == 0 || distinctArrays(*v, other))
+//@   requires len(*v) >= len(other)   // see Add
+//@   modifies (*v)[*]
+//@   loop 1
+//@     invariant 0 - 1 <= rangeindex && rangeindex < len(other) && len(*v) == old(len(*v)) && *v == old(*v)
+//@     invariant forall i int :: rangeindex < i && i < len(*v) ==> (*v)[i] == old((*v)[i])
+//@     invariant forall i int :: 0 <= i && i <= rangeindex ==> (*v)[i] == old((*v)[i]) - other[i]
+//@     invariant forall i int :: 0 <= i && i < len(other) ==> other[i] == old(other[i])
+//@   ensures forall i int :: 0 <= i && i < len(*v) ==> (*v)[i] == old((*v)[i]) - vget(other, i)
+//@   ensures forall i int :: 0 <= i && i < len(other) ==> other[i] == old(other[i])
+//@ end
+
+// index of a resource name in the shared vector layout (GPU resource names are normalised to "gpu"); -1 if unknown
+//@ func (*ResourceVectorMap).GetIndex
+//@   props C01 C14
+//@   requires m != nil
+//@   pure
+//@   ensures result == ite(normalizeResourceName(resourceName) in m.namesToIndex, m.namesToIndex[normalizeResourceName(resourceName)], 0 - 1)
+//@ end
+
+//@ func NewResourceVector
+//@   props C01 C14
+//@   requires indexMap != nil
+//@   fresh
+//@   ensures len(result) == len(indexMap.resourceNames)
+//@   ensures forall i int :: 0 <= i && i < len(result) ==> result[i] == 0.0
+//@ end
+
+//@ func NewSingleGpuVector
+//@   props C01 C02 C14
+//@   requires indexMap != nil
+//@   fresh
+//@   ensures len(result) == len(indexMap.resourceNames)
+//@   ensures forall i int :: 0 <= i && i < len(result) ==> result[i] == ite(i == indexMap.GetIndex("gpu"), 1.0, 0.0)
+//@ end
+
+// Vector form of a Resource. Content beyond the length is not specified here: two scalar names may normalise to the
+// same index (any name ending in "gpu"), in which case the value depends on the map iteration order.
+//@ func (*Resource).ToVector
+//@   props C01 C14
+//@   requires r != nil && indexMap != nil
+//@   fresh
+//@   loop 1
+//@     invariant len(vec) == len(indexMap.resourceNames) && freshArray(vec)
+//@     invariant forall p *float64 :: p != nil && !fresh(p) ==> *p == old(*p)
+//@   ensures len(result) == len(indexMap.resourceNames)
+//@ end
+
+//@ func (*ResourceRequirements).ToVector
+//@   props C01 C14 C19 C10
+//@   requires r != nil && indexMap != nil
+//@   fresh
+//@   loop 1
+//@     invariant len(vec) == len(indexMap.resourceNames) && freshArray(vec)
+//@     invariant forall p *float64 :: p != nil && !fresh(p) ==> *p == old(*p)
+//@   loop 2
+//@     invariant len(vec) == len(indexMap.resourceNames) && freshArray(vec)
+//@     invariant forall p *float64 :: p != nil && !fresh(p) ==> *p == old(*p)
+//@   ensures len(result) == len(indexMap.resourceNames)
+//@ end
+
+// ---- emptiness (C01: a best-effort task requests nothing above the minimal quantities) ----------------
+//@ define baseEmpty(r *BaseResource) bool = r.milliCpu < 10.0 && r.memory < 10.0 * 1024.0 * 1024.0 && (forall k in r.scalarResources :: r.scalarResources[k] < 10)
+//@ define gpuReqEmpty(g *GpuResourceRequirement) bool = reqGpus(g) <= 0.01 && (forall k in g.draGpuCounts :: g.draGpuCounts[k] <= 0) && (forall k in g.migResources :: g.migResources[k] <= 0)
+//@ define reqEmpty(r *ResourceRequirements) bool = gpuReqEmpty(r.GpuResourceRequirement) && baseEmpty(r.BaseResource)
+
+//@ func (*BaseResource).IsEmpty
+//@   props C01
+//@   requires r != nil
+//@   pure
+//@   loop 1
+//@     invariant forall k in visited :: r.scalarResources[k] < 10
+//@   ensures result == baseEmpty(r)
+//@ end
+
+//@ func (*GpuResourceRequirement).IsEmpty
+//@   props C01
+//@   requires g != nil
+//@   pure
+//@   loop 1
+//@     invariant forall k in visited :: g.draGpuCounts[k] <= 0
+//@   loop 2
+//@     invariant forall k in visited :: g.migResources[k] <= 0
+//@   ensures result == gpuReqEmpty(g)
+//@ end
+
+//@ func (*ResourceRequirements).IsEmpty
+//@   props C01
+//@   requires r != nil
+//@   pure
+//@   ensures result == reqEmpty(r)
+//@ end
+
+// ---- conversions to k8s resource lists (reporting only) -------------------------------------------
+//@ func (*ResourceRequirements).ToResourceList
+//@   props C08 C10
+//@   trusted
+//@   note builds a fresh v1.ResourceList from k8s resource.NewQuantity/NewMilliQuantity (external constructors, havoc-all in the engine); touches no existing object; result content unconstrained
+//@   requires r != nil
+//@   fresh
+//@ end
+
+//@ func (*BaseResource).ToResourceList
+//@   props C08 C10
+//@   trusted
+//@   note builds a fresh v1.ResourceList from k8s resource.NewQuantity/NewMilliQuantity (external constructors, havoc-all in the engine); touches no existing object; result content unconstrained
+//@   requires r != nil
+//@   fresh
+//@ end
+
+// ---- constructors / max (used by pod_info: C10 C19) ---------------------------------------------------------
+//@ func (*BaseResource).ScalarResources
+//@   props C10 C19 C01 C14
+//@   requires r != nil
+//@   inline
+//@ end
+
+//@ func EmptyResourceRequirements
+//@   props C10 C19 C14
+//@   fresh
+//@   ensures result.milliCpu == 0.0 && result.memory == 0.0 && result.count == 0 && result.portion == 0.0 && result.gpuMemory == 0
+//@   ensures fresh(result.scalarResources) && fresh(result.migResources) && fresh(result.draGpuCounts)
+//@   ensures (forall k v1.ResourceName :: !(k in result.scalarResources) && !(k in result.migResources)) && (forall k string :: !(k in result.draGpuCounts))
+//@ end
+
+//@ func RequirementsFromResourceList
+//@   props C10 C19
+//@   trusted
+//@   note folds a v1.ResourceList through k8s resource.Quantity accessors (Value/MilliValue: external, havoc-all in the engine); assumed: touches no existing object, returns a new requirement with its three maps allocated; content unconstrained
+//@   fresh
+//@   ensures fresh(result.scalarResources) && fresh(result.migResources) && fresh(result.draGpuCounts)
+//@ end
+
+//@ func (*BaseResource).SetMaxResource
+//@   props C10 C19 C14
+//@   requires r != nil && rr != nil ==> r.scalarResources != rr.scalarResources || r.scalarResources == nil
+//@   modifies r.milliCpu, r.memory, r.scalarResources, r.scalarResources[*]
+//@   loop 1
+//@     invariant r != nil && rr != nil && r.scalarResources != nil && (old(r.scalarResources) != nil ==> r.scalarResources == old(r.scalarResources)) && (old(r.scalarResources) == nil ==> fresh(r.scalarResources))
+//@     invariant forall k in visited :: k in rr.scalarResources
+//@     invariant forall k in visited :: k in r.scalarResources && r.scalarResources[k] == ite(old(k in r.scalarResources) && old(r.scalarResources[k]) >= rr.scalarResources[k], old(r.scalarResources[k]), rr.scalarResources[k])
+//@     invariant forall k v1.ResourceName :: !(k in visited) ==> r.scalarResources[k] == old(r.scalarResources[k]) && (k in r.scalarResources <==> old(k in r.scalarResources))
+//@   ensures r != nil && rr != nil ==> r.milliCpu == max(old(r.milliCpu), rr.milliCpu) && r.memory == max(old(r.memory), rr.memory) && r.scalarResources != nil
+//@   ensures [mapKept] r != nil && rr != nil ==> ite(old(r.scalarResources) != nil, r.scalarResources == old(r.scalarResources), fresh(r.scalarResources))
+//@   ensures r != nil && rr != nil ==> forall k v1.ResourceName :: (k in r.scalarResources <==> old(k in r.scalarResources) || k in rr.scalarResources) && r.scalarResources[k] == ite(k in rr.scalarResources && !(old(k in r.scalarResources) && old(r.scalarResources[k]) >= rr.scalarResources[k]), rr.scalarResources[k], old(r.scalarResources[k]))
+//@ end
+
+// frame-only: the maximum of two GPU requirements (errors for different fractional portions)
+//@ func (*GpuResourceRequirement).SetMaxResource
+//@   props C10 C19
+//@   requires g != nil && gg != nil && g.draGpuCounts != nil && g.migResources != nil && g.draGpuCounts != gg.draGpuCounts && g.migResources != gg.migResources
+//@   modifies g.count, g.portion, g.draGpuCounts[*], g.migResources[*], draSum(g.draGpuCounts)
+//@   loop 1
+//@     invariant true
+//@   loop 2
+//@     invariant true
+//@ end
+
+//@ func (*ResourceRequirements).SetMaxResource
+//@   props C10 C19
+//@   requires r != nil && rr != nil ==> r.draGpuCounts != nil && r.migResources != nil && r.draGpuCounts != rr.draGpuCounts && r.migResources != rr.migResources && (r.scalarResources != rr.scalarResources || r.scalarResources == nil)
+//@   modifies r.milliCpu, r.memory, r.scalarResources, r.scalarResources[*], r.count, r.portion, r.draGpuCounts[*], r.migResources[*], draSum(r.draGpuCounts)
+//@   ensures r != nil && rr != nil ==> r.milliCpu == max(old(r.milliCpu), rr.milliCpu) && r.memory == max(old(r.memory), rr.memory) && r.scalarResources != nil
+//@   ensures [mapKept] r != nil && rr != nil ==> ite(old(r.scalarResources) != nil, r.scalarResources == old(r.scalarResources), fresh(r.scalarResources))
+//@ end
+
+//@ func StringResourceArray
+//@   props C07
+//@   trusted
+//@   note log-line formatting (strings.Builder over (*Resource).String()); read-only, result only used as a log argument
+//@   pure
+//@ end
